@@ -164,6 +164,14 @@ func runC02(tier string) int {
 					}
 					jobs = append(jobs, job{k, si, t, f, true, 1})
 				}
+				// the same test written plainly and with value(): six operators
+				for op := 0; op < 6; op++ {
+					f := make([]int, k)
+					for i := range f {
+						f[i] = 100 + op
+					}
+					jobs = append(jobs, job{k, si, t, f, true, 1})
+				}
 			}
 		}
 	}
@@ -366,7 +374,7 @@ func runC02(tier string) int {
 	r.Assume("the generator's own expression tree is the reference (no parsing on the oracle side); '!' > '&&' > '||', left to right, short-circuit",
 		"lockstep: each operand read (which flag/var/trainer, strict or not) is an observable event; the environment answers with the operand's value and each side applies its own relation")
 	return r.Finish(r.Get("evaluations"), r.Get("nontrivial"),
-		"every And/Or tree with k leaves x decorations (redundant parentheses / negations on any node, bounded count) x leaf-form assignments (all 30 forms exhaustively for k<=2, rotations beyond, shared-operand variants for k<=3) x 13 condition positions in a script, plus the if/else position in the second inline script of a mapscripts statement and in the second inline entry of a table (if, if/else, elif positions, while, do...while, branches with an empty body, and positions in which the first operand test of the expression is tested again in a neighbouring condition) x optimize on/off; plus AutoVar command leaves (3 command kinds x 9 forms, alone and inside an &&/|| expression) in files whose constants are named like the configured result vars; plus chains of K leaves for every K up to the bound in the coverage in 5 operator patterns; each case explored in lockstep over all operand values; non-trivial = at least 2 leaves")
+		"every And/Or tree with k leaves x decorations (redundant parentheses / negations on any node, bounded count) x leaf-form assignments (all 30 forms exhaustively for k<=2, rotations beyond, shared-operand variants for k<=3 incl. the same var test written once plainly and once with value()) x 13 condition positions in a script, plus the if/else position in the second inline script of a mapscripts statement and in the second inline entry of a table (if, if/else, elif positions, while, do...while, branches with an empty body, and positions in which the first operand test of the expression is tested again in a neighbouring condition) x optimize on/off; plus AutoVar command leaves (3 command kinds x 9 forms, alone and inside an &&/|| expression) in files whose constants are named like the configured result vars; plus chains of K leaves for every K up to the bound in the coverage in 5 operator patterns; each case explored in lockstep over all operand values; non-trivial = at least 2 leaves")
 }
 
 // firstLeafCopy returns a fresh leaf condition equal to the first operand test evaluated by c (polarity as written in the leaf).
@@ -379,6 +387,18 @@ func firstLeafCopy(c *model.Cond) *model.Cond {
 }
 
 func sharedLeaf(form, i int) *model.Leaf {
+	if form >= 100 {
+		// same var, same operator, same constant; odd leaves compare with value(): only the strictness differs
+		lf := model.LeafForm(20+(form-100)%6+6*(i%2), 1)
+		syms := map[machine.Rel]string{machine.RelEQ: "==", machine.RelNE: "!=", machine.RelLT: "<", machine.RelLE: "<=", machine.RelGT: ">", machine.RelGE: ">="}
+		lf.Const = 3
+		if lf.Strict {
+			lf.Src = fmt.Sprintf("var(V1) %s value(3)", syms[lf.Rel])
+		} else {
+			lf.Src = fmt.Sprintf("var(V1) %s 3", syms[lf.Rel])
+		}
+		return lf
+	}
 	lf := model.LeafForm(form, 1)
 	// give each leaf its own constant on the shared var V1
 	syms := map[machine.Rel]string{machine.RelEQ: "==", machine.RelNE: "!=", machine.RelLT: "<", machine.RelLE: "<=", machine.RelGT: ">", machine.RelGE: ">="}
